@@ -16,6 +16,7 @@ import (
 	"net/http"
 	"net/http/httptest"
 	"os"
+	"regexp"
 	"runtime"
 	"sort"
 	"strconv"
@@ -61,17 +62,19 @@ type TSpec struct {
 }
 
 type Line struct {
-	Kind   string  `json:"kind"`             // doc | nonobj | invalid
+	Kind string `json:"kind"` // doc | nonobj | invalid
 	// Lenient: an invalid line of a form the store's JSON decoder is known to accept (recorded
 	// finding "lenient-json"); generated only on request
-	Lenient bool `json:"lenient,omitempty"`
-	Blank  int     `json:"blank,omitempty"`  // blank lines before the action line (HTTP)
-	Action string  `json:"action,omitempty"` // HTTP
-	CRLF   bool    `json:"crlf,omitempty"`   // terminator of the action and of the document line
-	Text   string  `json:"text"`             // line without the pad fill
-	PadAt  int     `json:"pad_at,omitempty"`
-	PadLen int     `json:"pad_len,omitempty"`
-	Times  []TSpec `json:"times,omitempty"` // parseable time fields in priority order (first wins)
+	Lenient bool    `json:"lenient,omitempty"`
+	Blank   int     `json:"blank,omitempty"`  // blank lines before the action line (HTTP)
+	Action  string  `json:"action,omitempty"` // HTTP
+	CRLF    bool    `json:"crlf,omitempty"`   // terminator of the action and of the document line
+	Text    string  `json:"text"`             // line without the pad fill
+	PadAt   int     `json:"pad_at,omitempty"`
+	PadLen  int     `json:"pad_len,omitempty"`
+	Times   []TSpec `json:"times,omitempty"` // parseable time fields in priority order (first wins)
+	// Flags: generator classes this line belongs to (counted as labels by runCase)
+	Flags []string `json:"flags,omitempty"`
 }
 
 type Request struct {
@@ -201,10 +204,92 @@ type docOpts struct {
 	// impossible: a calendar date that does not exist (30 February ...) spelled in the ES
 	// format, which a normalising parser would read as an instant shortly before the request
 	impossible string
-	maxLen   int  // forInval: longest admissible line (0 = any)
+	maxLen     int // forInval: longest admissible line (0 = any)
 }
 
 // genDelay draws the distance of a document time from the request time.
+var esTimeRe = regexp.MustCompile(`^(\d{4})-(\d\d)-(\d\d) (\d\d):(\d\d):(\d\d)(\.\d+)?$`)
+
+// supportedTime: does the text denote a time in one of the three documented formats
+// ("2006-01-02 15:04:05.999" with any number of fraction digits, RFC 3339 with or without a
+// fraction)?  Independent of the proxy's parser: the standard library for RFC 3339, a regular
+// expression plus a calendar check for the first.
+func supportedTime(s string) bool {
+	if _, err := time.Parse(time.RFC3339Nano, s); err == nil {
+		return true
+	}
+	if _, err := time.Parse(time.RFC3339, s); err == nil {
+		return true
+	}
+	m := esTimeRe.FindStringSubmatch(s)
+	if m == nil {
+		return false
+	}
+	n := func(i int) int { v, _ := strconv.Atoi(m[i]); return v }
+	if n(2) < 1 || n(2) > 12 || n(3) < 1 || n(4) > 23 || n(5) > 59 || n(6) > 59 {
+		return false
+	}
+	d := time.Date(n(1), time.Month(n(2)), n(3), 0, 0, 0, 0, time.UTC)
+	return d.Day() == n(3)
+}
+
+// genNearMiss: the text of an instant a few seconds before the request (inside the drift
+// window whenever that is wider), spelled in a supported format and then changed in one place
+// so that no supported format reads it: a parser that reads a prefix, or forgives the change,
+// stamps the document with that instant instead of the request time.
+func genNearMiss(t *rapid.T, o docOpts, out *string) bool {
+	const sec = int64(1e9)
+	hi := max(3*sec, min(o.drift-sec, 600*sec))
+	at := time.Unix(0, o.req-rapid.Int64Range(2*sec, hi).Draw(t, "nmdelay")).UTC()
+	frac := rapid.SampledFrom([]int{9, 3, 0, 6, 1}).Draw(t, "nmfrac")
+	fr := ""
+	if frac > 0 {
+		fr = "." + fmt.Sprintf("%09d", at.Nanosecond())[:frac]
+	}
+	es := at.Format("2006-01-02 15:04:05") + fr
+	rfc := at.Format("2006-01-02T15:04:05") + fr
+	digits := rapid.StringMatching(`[0-9]{0,5}`).Draw(t, "nmdigits")
+	var s string
+	switch rapid.IntRange(0, 13).Draw(t, "nmkind") {
+	case 0: // zone after the ES spelling
+		s = es + rapid.SampledFrom([]string{"Z", "+03:00", "-07:30", "+00:00", " UTC", "z"}).Draw(t, "nmzone")
+	case 1: // ... after more than nine fraction digits
+		s = at.Format("2006-01-02 15:04:05") + "." + fmt.Sprintf("%09d", at.Nanosecond()) + digits + rapid.SampledFrom([]string{"Z", "+03:00", "x", " ", "e3", "-"}).Draw(t, "nmtail")
+	case 2: // RFC 3339 without a zone
+		s = rfc
+	case 3: // comma as the fraction separator of the ES spelling
+		s = strings.Replace(es, ".", ",", 1)
+		if frac == 0 {
+			s = es + ",5"
+		}
+	case 4: // blank around
+		s = rapid.SampledFrom([]string{" ", "\t"}).Draw(t, "nmblank") + es
+	case 5:
+		s = rapid.SampledFrom([]string{es, rfc + "Z"}).Draw(t, "nmbase") + rapid.SampledFrom([]string{" ", "\n", "\u00a0"}).Draw(t, "nmblank")
+	case 6: // lower-case separator
+		s = at.Format("2006-01-02t15:04:05") + fr + "Z"
+	case 7: // slashes or dots in the date
+		s = at.Format(rapid.SampledFrom([]string{"2006/01/02 15:04:05", "2006.01.02 15:04:05", "02-01-2006 15:04:05", "2006-01-02_15:04:05", "2006-01-02  15:04:05"}).Draw(t, "nmdate")) + fr
+	case 8: // a dot and nothing after it
+		s = at.Format("2006-01-02 15:04:05") + "."
+	case 9: // the fraction holds a non-digit
+		s = at.Format("2006-01-02 15:04:05") + "." + rapid.SampledFrom([]string{"12a", "1 2", "-12", "+12", "1e2", "0x1"}).Draw(t, "nmfracbad")
+	case 10: // zone without a colon or with seconds
+		s = rfc + rapid.SampledFrom([]string{"+0300", "+03", "+03:00:00", "UTC", " Z", "+3:00"}).Draw(t, "nmzone2")
+	case 11: // no seconds
+		s = at.Format(rapid.SampledFrom([]string{"2006-01-02 15:04", "2006-01-02T15:04Z"}).Draw(t, "nmshort"))
+	case 12: // hour 24 / second 60 / minute 60 of the same day
+		s = at.Format("2006-01-02 ") + rapid.SampledFrom([]string{"24:00:00", "23:59:60", "23:60:00"}).Draw(t, "nmclock")
+	default: // signs and separators inside the numbers
+		s = at.Format(rapid.SampledFrom([]string{"+2006-01-02 15:04:05", "2006-01-02 15:04:05 ", "2006-1-2 15:04:05", "2006-01-02 3:04:05", "06-01-02 15:04:05"}).Draw(t, "nmnum")) + fr
+	}
+	if supportedTime(s) {
+		return false
+	}
+	*out = s
+	return true
+}
+
 func genDelay(t *rapid.T, o docOpts) (delay int64, exact bool) {
 	D, F := o.drift, o.future
 	const ms, sec, hour = int64(1e6), int64(1e9), int64(3600e9)
@@ -264,7 +349,7 @@ func genDelay(t *rapid.T, o docOpts) (delay int64, exact bool) {
 // (parseable or not), generated members and optionally a pad member that brings the line to
 // an exact length.
 func genDoc(t *rapid.T, serial int, o docOpts) Line {
-	w := &jw{t: t}
+	w := &jw{t: t, flags: map[string]bool{}}
 	w.ws = rapid.SampledFrom([]int{0, 0, 0, 1, 2, 3}).Draw(t, "ws")
 	w.escAll = rapid.IntRange(0, 3).Draw(t, "escall") == 3
 	if o.minimal {
@@ -326,6 +411,9 @@ func genDoc(t *rapid.T, serial int, o docOpts) Line {
 				if o.impossible != "" && bad == 2 {
 					w.b = append(w.b, strconv.Quote(o.impossible)...)
 					w.flag("time-impossible-calendar-date")
+				} else if nm := ""; !o.http && rapid.Bool().Draw(t, "nearmiss") && genNearMiss(t, o, &nm) {
+					w.b = append(w.b, strconv.Quote(nm)...)
+					w.flag("time-near-miss-of-a-supported-format")
 				} else {
 					w.b = append(w.b, rapid.SampledFrom(badTimes).Draw(t, "badtime")...)
 				}
@@ -419,6 +507,10 @@ func genDoc(t *rapid.T, serial int, o docOpts) Line {
 			}
 		}
 	}
+	for f := range w.flags {
+		l.Flags = append(l.Flags, f)
+	}
+	sort.Strings(l.Flags)
 	if o.forInval && os.Getenv("C10_INCLUDE_KNOWN") == "lenient-json" && rapid.Bool().Draw(t, "lenient") {
 		// not valid JSON by RFC 8259 (encoding/json.Valid says no), of the kinds a lenient decoder lets through
 		bad := rapid.SampledFrom([]string{`01`, `-`, `1.`, `.5`, `+1`, `1e`, `-01`, "\"a\tb\"", "\"a\x01b\"", `"\q"`, `"\u12"`, `"\x41"`}).Draw(t, "lenientform")
@@ -1013,6 +1105,15 @@ func runCase(c Case) (res evid.Result, _ error) {
 		}
 		sort.Strings(res.Labels)
 	}()
+	for _, q := range c.Reqs {
+		for _, l := range q.Lines {
+			if l.Kind == "doc" {
+				for _, f := range l.Flags {
+					labels["line:"+f] = true
+				}
+			}
+		}
+	}
 	if c.Entry == "http" {
 		if c.MaxDoc < 32 {
 			return res, fmt.Errorf("harness: max_doc %d too small for action lines", c.MaxDoc)
